@@ -1,12 +1,18 @@
-import YaclibModel.Proofs.CoSharedMutex
+import YaclibModel.Proofs.CoSharedMutexS_rwFsub_1
+import YaclibModel.Proofs.CoSharedMutexS_rwFsub_2
+import YaclibModel.Proofs.CoSharedMutexS_rwFsub_3
+import YaclibModel.Proofs.CoSharedMutexS_rwFsub_4
+import YaclibModel.Proofs.CoSharedMutexS_rwFsub_5
 namespace Yaclib.CoSharedMutex
 
-set_option maxHeartbeats 4000000 in
 theorem inv_rwFsub {cfg : Cfg} {s : State} (hi : Inv cfg s) (c : Cid) (h : s.pc c = .rUn2) :
     Inv cfg ((doRwFsub s c)) := by
-  cases hi
   by_cases h1 : s.rwait = 1
-  · cases hpw : s.pw <;> simp only [doRwFsub, h1, hpw, ↓reduceIte] <;> sm_auto [List.count_le_length]
-  · simp only [doRwFsub, h1, ↓reduceIte]; sm_auto [List.count_le_length]
+  · cases hpw : s.pw with
+    | none => exact inv_rwFsub_1 hi c h h1 hpw
+    | a n r => exact inv_rwFsub_2 hi c h h1 n r hpw
+    | b n => exact inv_rwFsub_3 hi c h h1 n hpw
+    | c n b => exact inv_rwFsub_4 hi c h h1 n b hpw
+  · exact inv_rwFsub_5 hi c h h1
 
 end Yaclib.CoSharedMutex
